@@ -155,6 +155,16 @@ func (c *Ctx) add(f *Finding) {
 
 // Finish prints the verdict lines, writes evidence and replay files, and returns the exit code.
 func (c *Ctx) Finish() int {
+	if c.P != nil {
+		var rn []string
+		for a, b := range c.P.Renamed {
+			rn = append(rn, a+" -> "+b)
+		}
+		sort.Strings(rn)
+		for _, r := range rn {
+			c.Observe("anchor resolved to a near-miss name (rename tolerated, judged structurally): %s", r)
+		}
+	}
 	sort.SliceStable(c.Findings, func(i, j int) bool { return c.Findings[i].Key < c.Findings[j].Key })
 	vdir := filepath.Join(c.OutDir, c.Prop+".violations")
 	os.RemoveAll(vdir)
